@@ -101,7 +101,7 @@ def tlc(spec, cfg_text, workdir, env=None, workers=1, timeout=900, extra=None, d
     return res
 
 
-TRACE_CFG = """SPECIFICATION Spec
+TRACE_CFG = """SPECIFICATION %s
 POSTCONDITION Accepted
 CHECK_DEADLOCK FALSE
 CONSTANT CHECKS = {%s}
@@ -110,11 +110,11 @@ CONSTANT CHECKS = {%s}
 
 def tlc_trace(spec, checks, trace_path, workdir, timeout=1800):
     """Validate an ndjson trace.  Returns dict(accepted, rejected_at, fails, generated)."""
-    cfg = TRACE_CFG % ",".join('"%s"' % c for c in checks)
+    cfg = TRACE_CFG % ("TSpec" if spec == "Trace_Storage.tla" else "Spec", ",".join('"%s"' % c for c in checks))
     r = tlc(spec, cfg, workdir, env={"TRACE": trace_path}, workers=1, timeout=timeout)
     out = r["out"]
     fails = [(m.group(1), m.group(2), int(m.group(3)))
-             for m in re.finditer(r'<<"CHECKFAIL", "([^"]+)", "([^"]+)", (\d+)>>', out)]
+             for m in re.finditer(r'<<\s*"CHECKFAIL",\s*"([^"]+)",\s*"([^"]+)",\s*(\d+)\s*>>', out)]
     rej = re.search(r'<<"REJECTED", (\d+), "([^"]*)">>', out)
     r["fails"] = fails
     if "Model checking completed. No error has been found." in out and not rej:
@@ -217,7 +217,7 @@ class Run:
         return True
 
     # ---- generic trace validation with scenario isolation
-    def validate(self, spec, checks, trace_path, label, max_rounds=6, classify=None, timeout=1800):
+    def validate(self, spec, checks, trace_path, label, max_rounds=6, classify=None, timeout=1800, spec_kind=None):
         """Validate a concatenated trace; on rejection cut the offending scenario out, record it,
         and continue with the rest so that the whole trace is examined."""
         events = read_trace(trace_path)
